@@ -111,6 +111,25 @@ impl World {
         self.repo.raw()
     }
 
+    /// Move delegate `d`'s default branch to `code[idx]`.
+    pub fn set_head(&mut self, d: usize, idx: usize) {
+        let name = format!("refs/namespaces/{}/refs/heads/master", self.actors[d].public_key());
+        self.repo.raw().reference(&name, *self.code[idx], true, "verif").unwrap();
+        self.heads[d] = idx;
+    }
+
+    /// Is `code[c]` equal to or an ancestor of `code[h]`? (chain m0..m3 = 0..3, 4 = side commit off m0)
+    pub fn code_is_ancestor_or_equal(c: usize, h: usize) -> bool {
+        if c == h {
+            return true;
+        }
+        match (c, h) {
+            (4, _) => false,
+            (c, 4) => c == 0,
+            (c, h) => c < h,
+        }
+    }
+
     /// Write one change commit. `actions` are the JSON encodings of the type's actions.
     pub fn change(
         &self,
@@ -191,6 +210,10 @@ pub struct Snap {
     pub entries: BTreeSet<Oid>,
     pub edges: BTreeSet<(Oid, Oid)>,
     pub tips: BTreeSet<Oid>,
+    /// order in which the evaluator applies the surviving changes (root first), recomputed from the
+    /// returned history with the evaluator's own traversal (used only to decide whether the newest
+    /// change was applied last, never as an oracle)
+    pub order: Vec<Oid>,
 }
 
 pub fn snap<T: serde::Serialize>(obj: &cob::CollaborativeObject<T>) -> Snap {
@@ -206,7 +229,21 @@ pub fn snap<T: serde::Serialize>(obj: &cob::CollaborativeObject<T>) -> Snap {
             }
         }
     }
-    Snap { state: serde_json::to_value(obj.object()).expect("serialize state"), entries, edges, tips: h.tips() }
+    let root: Oid = **obj.id();
+    let mut order = vec![root];
+    if let Some(r) = g.get(&root) {
+        let children: Vec<Oid> = r.dependents.iter().copied().collect();
+        let mut copy = g.clone();
+        copy.prune_by(
+            &children,
+            |k, _, _| {
+                order.push(*k);
+                std::ops::ControlFlow::Continue(())
+            },
+            |x, y| x.1.timestamp.cmp(&y.1.timestamp).then(x.0.cmp(y.0)),
+        );
+    }
+    Snap { state: serde_json::to_value(obj.object()).expect("serialize state"), entries, edges, tips: h.tips(), order }
 }
 
 /// Evaluate an object of type T through the real `cob::get`.
